@@ -1,4 +1,7 @@
 import Skc.Proofs.RankValid
+import Skc.Proofs.RankFin
+import Skc.Proofs.Agg
+import Skc.Model.Evaluate
 set_option linter.unusedSectionVars false
 
 /-! # C03 — rankings are well formed and ordered exactly by the score they report
@@ -105,6 +108,75 @@ theorem kernel_iff (out : List (List Bool)) (n k : Nat) (hk : k < n) :
 
 /-- `evaluate` names exactly the input's alternatives, in input order -/
 theorem evaluate_alts {β} (alts : List String) (values : List β) : (mkResult alts values).alts = alts := rfl
+
+/-! ### the methods end to end (`Skc/Model/Evaluate.lean`: guards → kernel → `rank_values` → result) -/
+section methods
+open Skc.Eval Skc.Agg
+variable {m n : ℕ} [NeZero m] [NeZero n]
+
+/-- whenever a closed-form method (WSM, WPM, RatioMOORA, ReferencePointMOORA, FMF, TOPSIS with any of
+the five metrics) returns a result, it names exactly the input's alternatives in input order, has
+one rank per alternative, and its ranks are the dense ranking of the score it reports -/
+theorem evaluate_ok (meth : Method) (alts : List String) (A : Mat m n ℝ) (o : Vec n Obj) (w : Vec n ℝ) (r : Out m ℝ)
+    (h : evaluate meth alts A o w = .ok r) :
+    r.alts = alts ∧ r.score = scoreOf meth A o w ∧ r.rank = rankValues meth.rev (Vec.toList r.score) ∧ r.rank.length = m := by
+  unfold evaluate at h
+  split at h
+  · cases h
+  · cases h
+    refine ⟨rfl, rfl, rfl, ?_⟩
+    cases meth <;> simp [rankValues, denseRank, Vec.toList, Method.rev]
+
+/-- the ranks are ordered exactly by the reported score: strictly better score ⇔ strictly smaller
+rank (higher is better, except ReferencePointMOORA), equal scores ⇔ equal rank -/
+theorem evaluate_rank_order (meth : Method) (alts : List String) (A : Mat m n ℝ) (o : Vec n Obj) (w : Vec n ℝ) (r : Out m ℝ)
+    (h : evaluate meth alts A o w = .ok r) (a b : Fin m) :
+    (rankFin meth.rev r.score a < rankFin meth.rev r.score b ↔
+      (if meth.rev then r.score b < r.score a else r.score a < r.score b)) ∧
+    (rankFin meth.rev r.score a = rankFin meth.rev r.score b ↔ r.score a = r.score b) := by
+  constructor
+  · cases hr : meth.rev
+    · simpa using rankFin_false_lt_iff r.score a b
+    · simpa using rankFin_true_lt_iff r.score a b
+  · constructor
+    · intro heq
+      by_contra hne
+      rcases lt_or_gt_of_ne hne with hlt | hlt
+      · cases hr : meth.rev
+        · rw [hr] at heq; have := (rankFin_false_lt_iff r.score a b).mpr hlt; omega
+        · rw [hr] at heq; have := (rankFin_true_lt_iff r.score b a).mpr hlt; omega
+      · cases hr : meth.rev
+        · rw [hr] at heq; have := (rankFin_false_lt_iff r.score b a).mpr hlt; omega
+        · rw [hr] at heq; have := (rankFin_true_lt_iff r.score a b).mpr hlt; omega
+    · exact rankFin_eq_of_eq meth.rev r.score a b
+
+/-- `rankFin` is entry `i` of the rank vector the result carries -/
+theorem evaluate_rank_entry (meth : Method) (alts : List String) (A : Mat m n ℝ) (o : Vec n Obj) (w : Vec n ℝ) (r : Out m ℝ)
+    (h : evaluate meth alts A o w = .ok r) (i : Fin m) :
+    r.rank.getD i.val 0 = rankFin meth.rev r.score i := by
+  obtain ⟨_, _, hrank, hlen⟩ := evaluate_ok meth alts A o w r h
+  unfold rankFin
+  have hi : i.val < r.rank.length := by rw [hlen]; exact i.isLt
+  rw [List.getD_eq_getElem?_getD, List.getElem?_eq_getElem hi]
+  simp only [Option.getD_some, hrank, Vec.toList]
+
+/-- the ranks of a returned result pass `RankResult` validation: the integers `1..k` without gaps -/
+theorem evaluate_wellformed (meth : Method) (alts : List String) (A : Mat m n ℝ) (o : Vec n Obj) (w : Vec n ℝ) (r : Out m ℝ)
+    (h : evaluate meth alts A o w = .ok r) : validRank (r.rank.map fun (k : ℕ) => (k : ℤ)) = true := by
+  obtain ⟨_, _, hrank, _⟩ := evaluate_ok meth alts A o w r h
+  rw [hrank]
+  unfold rankValues
+  split <;> exact validRank_denseRank _
+
+/-- a method either raises `ValueError` or returns a result: nothing else -/
+theorem evaluate_total (meth : Method) (alts : List String) (A : Mat m n ℝ) (o : Vec n Obj) (w : Vec n ℝ) :
+    (evaluate meth alts A o w = .error .valueError ∧ refuses meth A o w = true) ∨
+    ∃ r, evaluate meth alts A o w = .ok r ∧ refuses meth A o w = false := by
+  unfold evaluate
+  by_cases hr : refuses meth A o w = true
+  · left; simp [hr]
+  · right; exact ⟨_, by simp only [hr, Bool.false_eq_true, if_false]; rfl, by simpa using hr⟩
+end methods
 
 /-! non-vacuity: concrete instances -/
 example : denseRank [3, 1, 3, 2] = [3, 1, 3, 2] := by decide
